@@ -58,6 +58,8 @@ ds = st.sampled_from([["t", "0"], ["t", "1"], ["u", "0"]])
 def histories(draw):
     n = draw(st.integers(1, 40))
     ops = []
+    for _ in range(draw(st.integers(0, 3))):  # usually a few jobs exist before reports and queries start
+        ops.append(["submit", draw(st.lists(st.integers(0, 3), max_size=4))])
     for _ in range(n):
         k = draw(st.sampled_from(["submit", "report", "report", "report", "shutdown", "progress", "progress", "result", "result"]))
         if k == "submit":
